@@ -75,7 +75,9 @@ struct Call {
     pause_ms: u64,           // pause before the call
 }
 
-const CMD: &str = "sleep 0.{1}; echo OUT {q} {2} N={n} SEL={+2}; echo l2; echo l3; echo l4";
+// every third entry ends with status 200 and its text on stderr: a command that ends by itself with any status is shown
+// (stdout on success, stderr otherwise); only one ended by a signal is dropped
+const CMD: &str = "sleep 0.{1}; p=$(echo OUT {q} {2} N={n} SEL={+2}; echo l2; echo l3; echo l4); case {n} in 1|4|7|10) echo \"$p\" >&2; exit 200;; *) echo \"$p\";; esac";
 const PV_POINTS: [&str; 6] = ["pv.exit", "pv.recv", "pv.drain", "pv.spawn", "pv.kill", "pv.send"];
 
 fn main() {
